@@ -1,0 +1,6 @@
+
+export CXX="g++"
+export CFLAGS=" -Wno-error -Wno-abi "
+export CXXFLAGS=" -Wno-error -std=c++11"
+export LDFLAGS=" -lgsl -lgslcblas -lm "
+
